@@ -418,7 +418,7 @@ def slice_end_rule(F, rep):
             else:
                 rep.violation(rid, key, "%s guards the slice at line %s with `end < len`: a result that ends at the last element is rejected (returns null inside the function's domain)"
                               % (name.split("::")[-1], s.line), "%s:%s" % (F.bodies[name]["file"], s.line))
-    rep.floor(rid, "range slices guarded by their end", n, 2)
+    rep.floor(rid, "range slices guarded by their end", n, 1)
 
 
 def feel_equality_rule(F, rep):
